@@ -31,7 +31,8 @@ ASSUMPTIONS = [
 ]
 REQUIRED_MONITORS = ["shadow:gaussian", "shadow:bosonic", "shadow:fock-pure", "shadow:fock-mixed",
                      "shadow:fock-pure(state still in ket representation)",
-                     "final:source-shadow", "pure-vs-mixed", "pair-sweep"]
+                     "final:source-shadow", "pure-vs-mixed", "pair-sweep",
+                     "nongauss:bosonic-vs-reffock", "nongauss:fock-pure-vs-reffock", "nongauss:fock-mixed-vs-reffock"]
 MAX_SKIP_FRACTION = 0.35
 
 TOL = 1e-9
@@ -299,14 +300,70 @@ def pair_sweep_cases(rng, simrun):
     return out
 
 
+def run_nongauss_case(case, rep):
+    """Cat / number states followed by Gaussian gates and loss: every prefix of the program is run on the bosonic and on the
+    Fock backend (pure and mixed) and the simulator state is compared with RefFock.  The Fock content of the bosonic state
+    is computed by the harness from the raw components (vf.nongauss), not by a state method."""
+    import strawberryfields as sf
+    from strawberryfields import ops
+    from .. import nongauss as ng, simrun
+
+    n = case["n"]
+    Dref = 28 if n == 1 else 22
+    Dc = 9 if n == 2 else 12  # comparison cutoff
+    f = ng.rf.FState(n, Dref)
+    nprefix = 0
+    for k, c in enumerate(case["cmds"]):
+        ng.ref_apply(f, c)
+        # compare once all modes that are going to be prepared have been prepared
+        if k + 1 < len(case["cmds"]) and case["cmds"][k + 1]["op"] in ("Catstate", "Fock", "Coherent"):
+            continue
+        if f.tail(Dref - 4) > 1e-9:
+            rep.skip("nongauss reference truncation")
+            return
+        sub = dict(case, cmds=case["cmds"][: k + 1])
+        ref = ng.ref_dm(f, Dc)
+        nprefix += 1
+        for conf in ({"backend": "bosonic"}, {"backend": "fock", "cutoff_dim": 14 if n == 2 else 18, "pure": True},
+                     {"backend": "fock", "cutoff_dim": 14 if n == 2 else 18, "pure": False}):
+            lab = conf["backend"] if conf["backend"] != "fock" else ("fock-pure" if conf["pure"] else "fock-mixed")
+            locus = "%s.%s" % (conf["backend"], c["op"])
+            try:
+                eng = sf.Engine(conf["backend"], backend_options={k2: v for k2, v in conf.items() if k2 != "backend"})
+                eng.run(ng.build(sf, ops, sub))
+                snap = simrun.Snap(eng.backend)
+            except Exception as e:
+                rep.violation(conf["backend"] + ".run", "exception:" + type(e).__name__, "%s raised %s on a non-Gaussian program: %s"
+                              % (lab, type(e).__name__, str(e)[:160]), case, {"prefix": k + 1})
+                return
+            if snap.kind == "bosonic":
+                got = ng.bosonic_dm(snap, Dc)
+                # the bosonic number-state preparation is an approximation by construction (quality parameter r = 0.05)
+                tol = 3e-2 if case.get("approx") else 1e-7
+                rep.monitor("nongauss:bosonic-vs-reffock" + ("(approximate Fock preparation)" if case.get("approx") else ""))
+            else:
+                got = ng.fock_dm(snap, Dc)
+                tol = simrun.fock_budget(f.tail(snap.D))
+                rep.monitor("nongauss:%s-vs-reffock" % lab)
+            d = float(np.max(np.abs(got - ref)))
+            rep.dev("nongauss.%s/tol" % lab, d / tol, 1.0)
+            rep.seen("nongauss:op-backend", "%s@%s" % (c["op"], lab))
+            if d > tol:
+                rep.violation(locus, "state-mismatch:non-gaussian", "after %s%s on modes %s (command %d of a cat/number-state program) "
+                              "the %s density matrix differs from the Fock-space reference by %.3e (tolerance %.3e)"
+                              % (c["op"], ".H" if c.get("dag") else "", c["m"], k + 1, lab, d, tol), case, {"prefix": k + 1, "conf": conf})
+                return
+    rep.case(["nongauss", rnd(case["cmds"], 6)], nprefix >= 2)
+
+
 def plan(tier, seed, scale=1.0):
     if tier == "quick":
-        ng, nf = int(60 * scale), int(10 * scale)
+        ng, nf, nn = int(60 * scale), int(10 * scale), max(1, int(3 * scale))
     else:
-        ng, nf = int(1200 * scale), int(120 * scale)
+        ng, nf, nn = int(1200 * scale), int(120 * scale), int(60 * scale)
     shards = []
     for i in range(16):
-        shards.append({"ng": ng, "nf": nf, "timeout": 3000, "sweep_part": i})
+        shards.append({"ng": ng, "nf": nf, "nn": nn, "timeout": 6000, "sweep_part": i})
     return shards
 
 
@@ -327,6 +384,19 @@ def run_shard(shard, rep):
             run_case(case, rep, env)
         except Exception as e:
             rep.error("run_case", e)
+    from .. import nongauss
+
+    # (these cases run whole prefixes on fresh engines and look at the final simulator state only: the lock-step tap is off)
+    runner.observers = []
+    runner.tap.uninstall()
+    for _ in range(shard.get("nn", 0)):
+        case = nongauss.gen_case(rng)
+        case["nongauss"] = True
+        try:
+            run_nongauss_case(case, rep)
+        except Exception as e:
+            rep.error("run_nongauss_case", e)
+    runner.tap.install()
     sweep = pair_sweep_cases(np.random.default_rng([shard["seed"], 101]), simrun)
     mine = [c for i, c in enumerate(sweep) if i % 16 == shard["sweep_part"]]
     if shard.get("tier") == "quick":
@@ -340,6 +410,9 @@ def run_shard(shard, rep):
 
 
 def replay(case, rep):
+    if case.get("nongauss"):
+        load()
+        return run_nongauss_case(case, rep)
     simrun, sfutil = load()
     runner = simrun.SimRunner()
     run_case(case, rep, (simrun, sfutil, runner))
